@@ -31,6 +31,9 @@ def run(chk, repo, tier):
     from . import extent_rules as X
     from .prop_flow import own_storage_rule
     own_storage_rule(chk, repo, 'C05-o')
+    # accumulating an image with a weight adds weight * |field|^2: the weight enters once, after the modulus
+    from .c07 import insert_twin_rule as _insert_twin_rule5
+    _insert_twin_rule5(chk, repo, 'C05-c')
     # a product wavefront owns its tilt list: tilting it must not tilt the wavefront it was made from
     from . import common as _common5
     _common5.mul_concat(chk, repo, 'C05-o')
